@@ -36,6 +36,7 @@ func runC04(c *Ctx) {
 	resultDiscipline(c, []string{cdxUnser, spdxUnser, "reader.(*Reader).ParseStreamWithOptions", "reader.(*Reader).detectFormat", "formats.(*Sniffer).SniffReader", "reader.GetFormatUnserializer"})
 	noExitRule(c, parserEntries)
 	wellFounded(c, parserEntries)
+	nilMapWriteRule(c, parserEntries)
 	geometricAccumulation(c, ds)
 }
 
@@ -62,4 +63,6 @@ func runC07(c *Ctx) {
 	serializerState(c)
 	noExitRule(c, serializerEntries)
 	wellFounded(c, serializerEntries)
+	nilMapWriteRule(c, serializerEntries)
+	mapOrderRule(c, ds)
 }
